@@ -136,6 +136,16 @@ theorem pcgls_shift_counterexample :
 def PCRel (Pi : V →ₗ[K] V) (st st' : CGState K V W) : Prop :=
   st.x = Pi st'.x ∧ st.r = st'.r ∧ st.s = st'.s ∧ st.p = st'.p ∧ st.gamma = st'.gamma ∧ st.k = st'.k
 
+lemma pcRel_step (hV : oV.Lawful) (hW : oW.Lawful) (gamma0 : K) (st st' : CGState K V W)
+    (h : PCRel Pi st st') :
+    PCRel Pi (pcglsStep oV oW A At tol eps Pi PiT gamma0 st)
+      (cglsStep oV oW (A ∘ₗ Pi) (PiT ∘ₗ At) 0 tol eps gamma0 st') := by
+  obtain ⟨h1, h2, h3, h4, h5, h6⟩ := h
+  unfold PCRel pcglsStep cglsStep
+  simp only [hV.sub, hV.smul, hV.add, hW.sub, hW.smul, LinearMap.coe_comp, Function.comp_apply,
+    zero_mul, add_zero, zero_smul, sub_zero, h1, h2, h4, h5, h6]
+  refine ⟨?_, ?_, ?_, ?_, ?_, ?_⟩ <;> first | trivial | (rw [map_add, map_smul])
+
 /-- **PCGLS is CGLS on `A P⁻¹`:** started at `x₀ = P⁻¹ y₀`, after any number `j` of loop bodies the
     PCGLS state equals the (unshifted) CGLS state for the operator `A P⁻¹` / adjoint `P⁻ᵀ Aᵀ` started
     at `y₀`, with `x = P⁻¹ y` (residual, gradient, direction, `γ`, `k` identical). -/
@@ -147,14 +157,11 @@ theorem pcgls_eq_cgls_on_APinv (hV : oV.Lawful) (hW : oW.Lawful) (gamma0 : K) (x
   | zero =>
     simp only [Function.iterate_zero, id_eq]
     unfold PCRel pcglsInit cglsInit
-    simp [hx, hV.sub, hV.smul, hW.sub]
+    simp only [hx, hV.sub, hV.smul, hW.sub, LinearMap.coe_comp, Function.comp_apply, zero_smul, sub_zero]
+    refine ⟨?_, ?_, ?_, ?_, ?_, ?_⟩ <;> trivial
   | succ j ih =>
     rw [Function.iterate_succ_apply', Function.iterate_succ_apply']
-    obtain ⟨h1, h2, h3, h4, h5, h6⟩ := ih
-    unfold PCRel pcglsStep cglsStep
-    simp only [hV.sub, hV.smul, hV.add, hW.sub, hW.smul, LinearMap.comp_apply, zero_mul, add_zero,
-      zero_smul, sub_zero, h1, h2, h3, h4, h5, h6, map_add, map_smul]
-    exact ⟨trivial, trivial, trivial, trivial, trivial, trivial⟩
+    exact pcRel_step A At tol eps Pi PiT hV hW gamma0 _ _ ih
 
 end PCG
 
@@ -191,7 +198,7 @@ theorem soft_threshold_unique {n : ℕ} (x z : Vector K n) (γ : K) (hγ : 0 ≤
   have h3 : (z[i] - (proximalL1 x γ)[i]) ^ 2 = 0 := by
     have : (z[(⟨i, hi⟩ : Fin n)] - (proximalL1 x γ)[(⟨i, hi⟩ : Fin n)]) ^ 2 / 2 = 0 := this
     simpa using this
-  exact sub_eq_zero.1 (pow_eq_zero_iff (two_ne_zero)).1 h3
+  exact sub_eq_zero.1 ((pow_eq_zero_iff (two_ne_zero)).1 h3)
 
 /-- **`ProjectBox` is the Euclidean projection onto the box** `l ≤ z ≤ u` (for `l ≤ u`
     coordinatewise): its value lies in the box and is at least as close to `x` as any point of the
@@ -233,5 +240,226 @@ theorem nonneg_is_projection {n : ℕ} (x z : Vector K n) (hz : ∀ i : Fin n, 0
 example : projectNonnegative (#v[(3 : ℚ), -1/4, 0]) = #v[3, 0, 0] := by decide +kernel
 
 end Prox
+
+/-! ## 4. FISTA / ISTA: what the returned point is -/
+section Fista
+variable {V W : Type} (oV : VOps K V) (oW : VOps K W) (fwd : V → W) (adj : W → V) (b : W)
+  (prox : V → K → V) (t abstol : K) (maxit : ℕ) (adaptive : Bool)
+
+lemma fistaGo_sound (fuel : ℕ) (x : V) (k : ℕ) (hk : maxit ≤ fuel + k + 1) :
+    ∃ y, (fistaGo oV oW fwd adj b prox t abstol maxit adaptive fuel x k).1
+          = proxGradStep oV oW fwd adj b prox t y ∧
+      ((0 ≤ abstol ∧ oV.nrm2 (oV.sub (fistaGo oV oW fwd adj b prox t abstol maxit adaptive fuel x k).1 y) ≤ abstol ^ 2)
+        ∨ maxit ≤ (fistaGo oV oW fwd adj b prox t abstol maxit adaptive fuel x k).2) := by
+  induction fuel generalizing x k with
+  | zero => exact ⟨x, rfl, Or.inr (by simpa [fistaGo] using hk)⟩
+  | succ n ih =>
+    unfold fistaGo
+    simp only
+    split_ifs with hstop
+    · refine ⟨x, rfl, ?_⟩
+      rcases Bool.or_eq_true _ _ ▸ hstop with h | h
+      · exact Or.inl ((fistaSmall_true_iff _ _).1 h)
+      · exact Or.inr (by simpa using h)
+    · exact ih _ _ (by omega)
+    · exact ih _ _ (by omega)
+
+/-- **What FISTA/ISTA returns:** the returned point is always the proximal-gradient image
+    `prox_t(y − t·Aᵀ(A y − b))` of a point `y` (the last extrapolated point; for ISTA the previous
+    iterate), and either `‖x_new − y‖ ≤ abstol` — an `abstol`-approximate fixed point of the
+    proximal-gradient map — or the iteration budget `maxit` was used up. -/
+theorem fista_stop_sound (x0 : V) :
+    ∃ y, (fista oV oW fwd adj b prox t abstol maxit adaptive x0).1 = proxGradStep oV oW fwd adj b prox t y ∧
+      ((0 ≤ abstol ∧ oV.nrm2 (oV.sub (fista oV oW fwd adj b prox t abstol maxit adaptive x0).1 y) ≤ abstol ^ 2)
+        ∨ maxit ≤ (fista oV oW fwd adj b prox t abstol maxit adaptive x0).2) :=
+  fistaGo_sound oV oW fwd adj b prox t abstol maxit adaptive (maxit - 1) x0 0 (by omega)
+
+example : (fista (VOps.ofModule ℚ ℚ (· * ·)) (VOps.ofModule ℚ ℚ (· * ·)) (fun x => 2 * x) (fun r => 2 * r) (6 : ℚ)
+    (fun v g => softThr (1 * g) v) (1/8) (1/100) 50 true 0).2 < 50 := by decide +kernel
+
+/-- **An exact fixed point is returned as is (`abstol ≥ 0`):** started at a fixed point of the
+    proximal-gradient map with a definite `dot`, FISTA returns it after one pass. -/
+theorem fista_fixed_point_returned (hsub : ∀ v, oV.nrm2 (oV.sub v v) = 0) (habs : 0 ≤ abstol) (x0 : V)
+    (hfix : proxGradStep oV oW fwd adj b prox t x0 = x0) :
+    fista oV oW fwd adj b prox t abstol maxit adaptive x0 = (x0, 1) := by
+  unfold fista
+  cases h : maxit - 1 with
+  | zero => simp [fistaGo, hfix]
+  | succ n =>
+    unfold fistaGo
+    have : fistaSmall (oV.nrm2 (oV.sub (proxGradStep oV oW fwd adj b prox t x0) x0)) abstol = true := by
+      rw [hfix, hsub]; exact (fistaSmall_true_iff _ _).2 ⟨habs, by positivity⟩
+    rw [hfix] at this
+    simp [this, hfix]
+
+end Fista
+
+/-! ## 5. Levenberg–Marquardt -/
+section LMsec
+variable {V W M : Type} (oV : VOps K V) (oW : VOps K W) (res : V → W) (jac : V → M) (jtv : M → W → V)
+  (insolve : M → K → V → V) (nu0 gradtol : K)
+
+/-- the LM loop invariant: residual, Jacobian and gradient stored in the state are those of the current `x` -/
+def LMInv (st : LMState K V W M) : Prop :=
+  st.r = res st.x ∧ st.J = jac st.x ∧ st.g = jtv st.J st.r ∧ st.ng2 = oV.nrm2 st.g ∧ st.f = half * oW.nrm2 st.r
+
+lemma lmInit_inv (x0 : V) (nuInit : K) : LMInv oV oW res jac jtv (lmInit oV oW res jac jtv x0 nuInit) :=
+  ⟨rfl, rfl, rfl, rfl, rfl⟩
+
+lemma lmStep_inv (st : LMState K V W M) (h : LMInv oV oW res jac jtv st) :
+    LMInv oV oW res jac jtv (lmStep oV oW res jac jtv insolve nu0 st) := by
+  obtain ⟨h1, h2, h3, h4, h5⟩ := h
+  unfold lmStep
+  simp only
+  split_ifs <;> first | exact ⟨h1, h2, rfl, rfl, h5⟩ | exact ⟨rfl, rfl, rfl, rfl, rfl⟩
+
+lemma lmLoop_inv (ng02 : K) (fuel : ℕ) (st : LMState K V W M) (h : LMInv oV oW res jac jtv st) :
+    LMInv oV oW res jac jtv (lmLoop oV oW res jac jtv insolve nu0 gradtol ng02 fuel st) ∧
+    (lmCont (lmLoop oV oW res jac jtv insolve nu0 gradtol ng02 fuel st).ng2 ng02 gradtol = false ∨
+      (lmLoop oV oW res jac jtv insolve nu0 gradtol ng02 fuel st).i = st.i + fuel) := by
+  induction fuel generalizing st with
+  | zero => exact ⟨h, Or.inr rfl⟩
+  | succ n ih =>
+    unfold lmLoop
+    split_ifs with hc
+    · have := ih _ (lmStep_inv oV oW res jac jtv insolve nu0 st h)
+      refine ⟨this.1, this.2.imp id (fun e => ?_)⟩
+      rw [e]
+      have : (lmStep oV oW res jac jtv insolve nu0 st).i = st.i + 1 := by
+        unfold lmStep; simp only; split_ifs <;> rfl
+      rw [this]; omega
+    · exact ⟨h, Or.inl (by simpa using hc)⟩
+
+lemma lm_inv (x0 : V) (nuInit : K) (maxit : ℕ) :
+    LMInv oV oW res jac jtv (lm oV oW res jac jtv insolve nu0 gradtol x0 nuInit maxit) ∧
+    (lmCont (lm oV oW res jac jtv insolve nu0 gradtol x0 nuInit maxit).ng2 (oV.nrm2 (jtv (jac x0) (res x0))) gradtol = false ∨
+      (lm oV oW res jac jtv insolve nu0 gradtol x0 nuInit maxit).i = maxit) := by
+  have h := lmLoop_inv oV oW res jac jtv insolve nu0 gradtol
+    (lmInit oV oW res jac jtv x0 nuInit).ng2 maxit _ (lmInit_inv oV oW res jac jtv x0 nuInit)
+  refine ⟨h.1, h.2.imp id (fun e => ?_)⟩
+  have e' : (lm oV oW res jac jtv insolve nu0 gradtol x0 nuInit maxit).i = 0 + maxit := e
+  omega
+
+/-- **LM gradient invariant:** in the state LM ends with, `r = A(x)`, `J = jacfun(x)`, `g = Jᵀ r` —
+    the stored gradient is the gradient `J(x)ᵀ r(x)` of `½‖r(x)‖²` at the returned `x`, and
+    `info["func"]`, `info["Jac"]` are the residual and Jacobian at the returned point. -/
+theorem lm_gradient_inv (x0 : V) (nuInit : K) (maxit : ℕ) (st : LMState K V W M)
+    (hst : st = lm oV oW res jac jtv insolve nu0 gradtol x0 nuInit maxit) :
+    st.r = res st.x ∧ st.J = jac st.x ∧ st.g = jtv (jac st.x) (res st.x) ∧ st.ng2 = oV.nrm2 st.g := by
+  subst hst
+  obtain ⟨⟨h1, h2, h3, h4, _⟩, _⟩ := lm_inv oV oW res jac jtv insolve nu0 gradtol x0 nuInit maxit
+  exact ⟨h1, h2, by rw [← h1, ← h2]; exact h3, h4⟩
+
+/-- **LM stopping is sound:** unless all `maxit` iterations were used, the returned point is
+    stationary to the relative gradient tolerance: `‖J(x)ᵀ r(x)‖² ≤ gradtol²·‖J(x₀)ᵀ r(x₀)‖²`
+    (for `gradtol ≥ 0` and a non-stationary start). -/
+theorem lm_stop_sound (x0 : V) (nuInit : K) (maxit : ℕ) (hg : 0 ≤ gradtol)
+    (h0 : oV.nrm2 (jtv (jac x0) (res x0)) ≠ 0) (st : LMState K V W M)
+    (hst : st = lm oV oW res jac jtv insolve nu0 gradtol x0 nuInit maxit) :
+    oV.nrm2 (jtv (jac st.x) (res st.x)) ≤ gradtol ^ 2 * oV.nrm2 (jtv (jac x0) (res x0)) ∨ st.i = maxit := by
+  subst hst
+  obtain ⟨⟨h1, h2, h3, h4, _⟩, hstop⟩ := lm_inv oV oW res jac jtv insolve nu0 gradtol x0 nuInit maxit
+  rcases hstop with hc | hi
+  · left
+    have := lmCont_false _ _ _ h0 hg hc
+    rw [h4, h3, h2, h1] at this
+    exact this
+  · right; exact hi
+
+example : (lm (VOps.ofModule ℚ ℚ (· * ·)) (VOps.ofModule ℚ ℚ (· * ·)) (fun x => 2 * x - 6) (fun _ => (2 : ℚ))
+    (fun J r => J * r) (fun J nu g => g / (J * J + nu)) (1/1000) (1/10) 0 12 50).i < 50 := by decide +kernel
+
+end LMsec
+
+/-! ## 6. SciPy wrappers -/
+section Wrappers
+variable {X F G : Type}
+
+/-- **`minimize` passes SciPy's result through unchanged:** solution and every `info` field are the
+    corresponding fields of SciPy's `OptimizeResult`. -/
+theorem wrapper_passthrough (r : SciRes X F G) :
+    (wrapMinimize r).1 = r.x ∧ (wrapMinimize r).2.func = r.fn ∧ (wrapMinimize r).2.grad = r.jac ∧
+    (wrapMinimize r).2.success = r.success ∧ (wrapMinimize r).2.message = r.message ∧
+    (wrapMinimize r).2.nit = r.nit ∧ (wrapMinimize r).2.nfev = r.nfev :=
+  ⟨rfl, rfl, rfl, rfl, rfl, rfl, rfl⟩
+
+/-- **`maximize` is `minimize` on the negated function (and negated gradient).** -/
+theorem maximize_is_minimize_neg [Neg F] [Neg G]
+    (scipy : (X → F) → Option (X → G) → X → SciRes X F G) (f : X → F) (g : Option (X → G)) (x0 : X) :
+    maximizeVia scipy f g x0 = minimizeVia scipy (fun x => -f x) (g.map (fun g x => -g x)) x0 := rfl
+
+/-- **Sign flip:** if the wrapped optimiser returns a minimiser over a set `S` of whatever objective
+    it is given, the point `maximize` returns maximises `func` over `S`, and `info["func"]` is
+    SciPy's value of the negated objective. -/
+theorem maximize_optimal {G : Type} [Neg G] (scipy : (X → K) → Option (X → G) → X → SciRes X K G) (S : Set X)
+    (hmin : ∀ (h : X → K) (g : Option (X → G)) (x0 : X), ∀ z ∈ S, h (scipy h g x0).x ≤ h z)
+    (f : X → K) (g : Option (X → G)) (x0 : X) :
+    (∀ z ∈ S, f z ≤ f (maximizeVia scipy f g x0).1) ∧
+    (maximizeVia scipy f g x0).2.func = (scipy (fun x => -f x) (g.map (fun g x => -g x)) x0).fn := by
+  refine ⟨fun z hz => ?_, rfl⟩
+  have := hmin (fun x => -f x) (g.map (fun g x => -g x)) x0 z hz
+  simpa [maximizeVia, wrapMinimize] using this
+
+/-- **`L_BFGS_B` status table:** success exactly for `warnflag = 0`; the message is SciPy's `task`
+    for every flag other than 0 and 1. -/
+theorem lbfgsb_status_table (wf : ℤ) (task : String) :
+    ((lbfgsbStatus wf task).1 = 1 ↔ wf = 0) ∧ (wf ≠ 0 → wf ≠ 1 → (lbfgsbStatus wf task).2 = task) := by
+  unfold lbfgsbStatus
+  refine ⟨?_, fun h0 h1 => by simp [h0, h1]⟩
+  split_ifs with h0 h1 <;> simp [h0]
+
+end Wrappers
+
+/-! ## 7. Fixed points of the proximal-gradient map are exactly the minimisers -/
+section ProxMin
+variable {E F : Type} [AddCommGroup E] [Module K E] [AddCommGroup F] [Module K F]
+  (ipE : E → E → K) (ipF : F → F → K) (A : E →ₗ[K] F) (At : F →ₗ[K] E) (b : F)
+
+/-- **Fixed point ⇔ minimiser.**  Let `⟪·,·⟫` be symmetric bilinear forms with non-negative squares on
+    the unknowns and the data (the Euclidean dot products), `Aᵀ` the adjoint of `A`, `C` a convex set
+    and `g` convex on `C` (`g = λ‖·‖₁`, `C` everything; `g = 0`, `C` a box or the non-negative
+    orthant: the shipped proximal maps), `t > 0`.  Then `x` is a fixed point of the
+    proximal-gradient map — `x` *is* the proximal point of `x − t·Aᵀ(A x − b)`, i.e. the minimiser of
+    `½‖z − v‖² + t·g(z)` over `C` — iff `x` minimises `½‖A z − b‖² + g(z)` over `C`.
+    (`soft_threshold_is_prox`, `box_is_projection`, `nonneg_is_projection` show that the shipped maps
+    compute that proximal point for the Euclidean sums.) -/
+theorem ista_fixed_point_iff_min (hE : IsIP ipE) (hF : IsIP ipF)
+    (hadj : ∀ d w, ipF (A d) w = ipE d (At w))
+    (C : Set E) (g : E → K) (hCg : ConvexData C g) (t : K) (ht : 0 < t) (x : E) (hx : x ∈ C) :
+    IsProxPoint ipE C g t (x - t • lsqGrad A At b x) x
+      ↔ ∀ z ∈ C, lsq ipF A b x + g x ≤ lsq ipF A b z + g z := by
+  have h1 := min_iff_vi C g hCg (lsq ipF A b) x hx (fun d => ipE (lsqGrad A At b x) d)
+    (fun d => ipF (A d) (A d) / 2) (fun d => by have := hF.nonneg (A d); positivity)
+    (fun d θ => lsq_expand ipE ipF A At b hF hadj hE x d θ)
+  have hCg' : ConvexData C (fun z => t * g z) :=
+    ⟨hCg.seg, fun x hx z hz θ h0 h1 => by
+      have := mul_le_mul_of_nonneg_left (hCg.conv x hx z hz θ h0 h1) ht.le
+      show t * g (x + θ • (z - x)) ≤ t * g x + θ * (t * g z - t * g x)
+      linarith⟩
+  have h2 := min_iff_vi C (fun z => t * g z) hCg'
+    (fun z => ipE (z - (x - t • lsqGrad A At b x)) (z - (x - t • lsqGrad A At b x)) / 2) x hx
+    (fun d => ipE (x - (x - t • lsqGrad A At b x)) d) (fun d => ipE d d / 2)
+    (fun d => by have := hE.nonneg d; positivity)
+    (fun d θ => sq_expand ipE hE _ x d θ)
+  unfold IsProxPoint
+  rw [and_iff_right hx, h2, h1]
+  have e : ∀ d, ipE (x - (x - t • lsqGrad A At b x)) d = t * ipE (lsqGrad A At b x) d := by
+    intro d; rw [sub_sub_cancel, hE.smul_left]
+  constructor
+  · intro h z hz
+    have := h z hz
+    rw [e] at this
+    have h3 : 0 ≤ t * (ipE (lsqGrad A At b x) (z - x) + (g z - g x)) := by linarith
+    exact nonneg_of_mul_nonneg_right h3 ht
+  · intro h z hz
+    rw [e]
+    have := mul_nonneg ht.le (h z hz)
+    linarith
+
+example : IsIP (fun a b : ℚ => a * b) :=
+  ⟨fun a b c => by ring, fun t a c => by simp [mul_assoc], fun a b => by ring, fun a => mul_self_nonneg a⟩
+example : ConvexData (Set.univ : Set ℚ) (fun _ => (0 : ℚ)) := ⟨fun _ _ _ _ _ _ _ => trivial, fun _ _ _ _ _ _ _ => by simp⟩
+
+end ProxMin
 
 end CuqiVerif.C16
